@@ -450,6 +450,7 @@ class PipeSpec(SeqSpec):
         self.kind = kind
         self.faults = faults
         self.checkers = {"M": ("check_iter" if kind == "iter" else "check_stream") + checker_suffix}
+        self.case_type = "icase"
         self.twin = {}
 
     def gen(self, rng, tier, scale):
